@@ -139,6 +139,11 @@ def run(ctx):
         if sub is None or list(sub.instructions) != list(instrs):
             return {"stage": "text->objects", "parsed": rp}
         raw = H.real_encode_sub(list(sub.instructions), 0, (0, 0))
+        if raw is not None and rng.random() < 0.15:
+            # the binary leg from bytearray / memoryview inputs whose buffer is overwritten afterwards
+            prob = H.decode_buffer_alias_problem(fname, raw, rng)
+            if prob is not None:
+                return {"stage": "binary (input buffer types)", "detail": prob}
         # the binary leg through every public entry point: the Deserializer class, the function
         # `deserialize(data, flavour=f)` and, for vanilla, its default-flavour form `deserialize(data)`
         entries = [("Deserializer(flavour)", H.real_decode_sub), ("deserialize(data, flavour)", H.real_decode_sub_fn)]
